@@ -144,5 +144,37 @@ CHECKS.update({
     },
 })
 
+CHECKS.update({
+    "C02": {
+        "text": "spec/J5Schema.tla builds j5s bundles by Add* actions (objects, oneofs, enums, nested / inline types, every field type and "
+                "qualifier form, imports, services, topics) and spec/J5Compile.tla defines Contract(bundle) with casing functions computed "
+                "in the spec; TLC checks NumbersContiguous / NamesUniquePerScope / ImportsSufficient; every program is printed, compiled by the "
+                "real PackageSet and its descriptors projected and compared with the predicted contract on the attributes the statement lists",
+        "design_ref": "DESIGN.md 5.5, 6/C02", "note": "focus-exhaustive over 419 constructs on 6 base bundles, <= 3 steps; deeper programs by simulation; the AST printer is trusted (checked by drift 0)",
+        "technique": "TLA+ program-building spec + Contract operator + TLC, contract replay through the real compiler, TLC trace validation",
+    },
+    "C13": {
+        "text": "AppendStable is an action property of J5Compile.tla over every Add*-at-end step (checked by TLC on the whole reachable graph); "
+                "every model edge and history is replayed as real compiles and the restriction of the new output to the old elements compared",
+        "design_ref": "DESIGN.md 5.5, 6/C13", "note": "append edits of the kinds the statement lists; others are drift",
+        "technique": "TLA+ action property + TLC, pairwise replay of compiles along model histories, TLC trace validation",
+    },
+    "C14": {
+        "text": "spec/CompileOrder.tla models PackageSet as a history-independent cache: all permutations of file / package listings, all call "
+                "orders, fresh vs reused sets (TLC); each history is executed repeatedly, in several processes, and every FileDescriptorProto "
+                "(deterministic marshal) and printed text must be byte-identical; digests validated as a trace of CompileOrder",
+        "design_ref": "DESIGN.md 5.8, 6/C14", "note": "bundles of <= 3 packages x 3 files; hash-seed variation by separate processes",
+        "technique": "TLA+ history-independence spec + TLC (all permutations / call orders), replay of histories with byte comparison, TLC trace validation",
+    },
+    "C18": {
+        "text": "spec/ProtoShapes.tla builds raw proto3 descriptor sets (all scalar kinds, labels, oneofs, maps, WKTs, every digraph of <= 3 "
+                "(thorough 4) messages, consistent and inconsistent j5 / validate / list annotations) and contains the reflection skeleton as a "
+                "state machine with termination and switch-totality invariants; every set is reflected through the three entry points in an "
+                "isolated worker, proto paths and name uniqueness checked, empty and populated messages encoded and decoded",
+        "design_ref": "DESIGN.md 5.10, 6/C18", "note": "single-focus exhaustive, pairs and simulation in thorough; Builds/Errors predictions are drift only",
+        "technique": "TLA+ descriptor-shape generator + reflection skeleton + TLC, replay with process isolation, TLC trace validation",
+    },
+})
+
 _NY = "check not built yet in this round; planned per DESIGN.md section 6 (TLA+ model + replay + trace validation)"
 PENDING = {("C%02d" % i): _NY for i in range(1, 21)}
